@@ -763,6 +763,8 @@ def oracle_c09(world, result):
     P["vacuous_states"] = n_vac
     P["teleport_fired"] = int(any(s["fault"] == E.F_TELEPORT for s in result["steps"]))
     P["sig_cond"] = int(bool(world["model"].get("cond_dim")))
+    P["prelude_models"] = len(world.get("prelude", []))
+    P["prelude_same_sizes"] = int(any(p.get("width") == world["model"].get("width") and p.get("depth") == world["model"].get("depth") and p.get("flow") == "maf" and p.get("dim") != world["model"].get("dim") for p in world.get("prelude", [])))
     return V, P, "strict"
 
 
